@@ -281,6 +281,15 @@ def attempt (k : Kind) (p : ReqPath) : Attempt :=
     answered with a failure (503, or 200 with a useless content type); `initFailRefused`: an `Initialize` whose first
     request the before-request function refuses. Both leave the client un-initialized, to be initialized again. -/
 inductive Op | initialize | initFailSent | initFailRefused | tools | toolsRetry | notify | roots | rootsUnknown | terminate
+  /-- Streamable: the server sends `roots/list` on the listening stream and ENDS the stream (closes it, or resets the
+      connection) while the client's roots provider is still working; the answer is posted after the stream is gone. -/
+  | rootsEnd
+  /-- Streamable: a new listening stream is opened for the session (`establishGetSSE` with the caller's context),
+      replacing — cancelling — the current one. -/
+  | reopen
+  /-- Streamable: the server sends `roots/list`; while the roots provider is still working the listening stream is
+      replaced (as `reopen`); the answer is posted after the replacement. -/
+  | rootsReplace
   deriving DecidableEq, Repr
 
 structure St where
@@ -289,9 +298,16 @@ structure St where
   /-- Streamable: an `initialize` answer without a session id (any failed answer included) switches the transport to
       "stateless, no listening stream" for good (`send`: `t.enableGetSSE = false`, never re-enabled). -/
   noStream : Bool := false
-  /-- the context value of the successful handshake -/
+  /-- the context value the background requests inherit: that of the successful handshake — or of the operation that
+      last (re)opened the listening stream (`sendResponseToServer` reads the CURRENT stream's context) -/
   hsVal : Option Nat := none
+  /-- Streamable: the listening stream has ended (the server ended it, or a replacement could not be opened) and has
+      not been reopened: the server has nothing to push a request on -/
+  gone : Bool := false
   deriving DecidableEq, Repr
+
+/-- The server has a listening stream to push a request on. -/
+def live (c : Client) (st : St) : Bool := st.initialized && !(c == .streamable && (st.noStream || st.gone))
 
 def pathFor (ps : List ReqPath) (c : Client) (k : Kind) : Option ReqPath :=
   match expected.find? (fun e => e.client == c && e.kind == k) with
@@ -336,7 +352,33 @@ def emits (cfg : Cfg) (ps : List ReqPath) (c : Client) (st : St) (v : Nat) : Op 
     | _ => if st.initialized then ([(.notification, st.issued)], st) else ([], st)
   | .roots | .rootsUnknown =>
     -- answers need the stream the server's request arrives on
-    if st.initialized && !(c == .streamable && st.noStream) then ([(.answer, st.issued)], st) else ([], st)
+    if live c st then ([(.answer, st.issued)], st) else ([], st)
+  | .rootsEnd =>
+    -- the request was read from the stream before it ended: the answer is still built and posted — by the stream's
+    -- reader, with the stream's context, which `establishGetSSE` never clears
+    match c with
+    | .streamable => if live c st then ([(.answer, st.issued)], { st with gone := true }) else ([], st)
+    | _ => ([], st)
+  | .reopen =>
+    match c with
+    | .streamable =>
+      if st.initialized then
+        -- `establishGetSSE` cancels the current stream and installs a context derived from the caller's; `connectGetSSE`
+        -- sends nothing without a session id
+        if st.issued then ([(.stream, true)], { st with gone := false, noStream := false, hsVal := some v })
+        else ([], { st with gone := true, hsVal := some v })
+      else ([], st)
+    | _ => ([], st)
+  | .rootsReplace =>
+    match c with
+    | .streamable =>
+      if st.initialized then
+        if st.issued then
+          ((.stream, true) :: (if live c st then [(.answer, true)] else []),
+           { st with gone := false, noStream := false, hsVal := some v })
+        else ((if live c st then [(.answer, false)] else []), { st with gone := true, hsVal := some v })
+      else ([], st)
+    | _ => ([], st)
   | .terminate =>
     match c with
     | .streamable =>
@@ -368,5 +410,53 @@ def trace (cfg : Cfg) (ps : List ReqPath) (c : Client) : St → List (Op × Nat)
     ks.map (fun (k, issued) => (pathFor ps c k).map (fun p =>
       let o := requestOf cfg issued k p
       (k, o, seenOf st' v k o))) ++ trace cfg ps c st' rest
+
+/-! ## Repeated options: what a client built from a LIST of options is configured with
+
+  `client.go`: `NewClient` / `NewSSEClient` apply the options in order.
+  * `WithHTTPHeaders(h)`: `for k, v := range h { c.transportConfig.httpHeaders[k] = v }` (a per-key merge: the last
+    option that names a key wins, keys named by earlier options only stay) and appends the transport option
+    `withTransportHTTPHeaders(h)`, which merges the same way into the Streamable transport's map when the transport
+    is constructed. The legacy SSE transport takes `extractTransportConfig(options).httpHeaders` — it sees the
+    `transportConfig` side only; the Streamable transport starts from `transportConfig.httpHeaders` and then replays
+    the transport options over it.
+  * `WithHTTPBeforeRequest`, `WithHTTPReqHandler`, `WithClientPath`: plain assignments — the last option wins.
+
+  A header map is an association list, NEWEST binding first (`List.lookup` finds the value in force). -/
+
+abbrev Hdr := List (Text × List Text)
+
+/-- How the two sides of `WithHTTPHeaders` treat a further option (regenerated from the source). -/
+structure OptFacts where
+  /-- `c.transportConfig.httpHeaders` is merged into per key (not replaced) -/
+  cfgMerges : Bool
+  /-- the transport option `withTransportHTTPHeaders` merges per key into the transport's map -/
+  optMerges : Bool
+  deriving DecidableEq, Repr
+
+/-- One more `WithHTTPHeaders(o)` applied to the map `m`: merge (the option's bindings shadow the older ones) or
+    replace. -/
+def applyHdr (merges : Bool) (m o : Hdr) : Hdr := if merges then o ++ m else o
+
+/-- `c.transportConfig.httpHeaders` after all options (`opts` in the order given). -/
+def cfgHeaders (F : OptFacts) (opts : List Hdr) : Hdr := opts.foldl (applyHdr F.cfgMerges) []
+
+/-- The static headers the transport of client `c` ends up with. -/
+def effHeaders (F : OptFacts) (c : Client) (opts : List Hdr) : Hdr :=
+  match c with
+  | .streamable => opts.foldl (applyHdr F.optMerges) (cfgHeaders F opts)
+  | _ => cfgHeaders F opts
+
+/-- The value every request must carry for key `k`: that of the LAST option naming `k`. -/
+def wantHeader (opts : List Hdr) (k : Text) : Option (List Text) := (opts.reverse.findSome? (fun o => o.lookup k))
+
+/-- The keys some option names, first mention first, without repetitions. -/
+def hdrKeys (opts : List Hdr) : List Text := (opts.flatMap (fun o => o.map (·.1))).eraseDups
+
+/-- The effective map in canonical form: one entry per key in force. -/
+def canonHeaders (m : Hdr) : Hdr := (m.map (·.1)).eraseDups.filterMap (fun k => (m.lookup k).map (fun v => (k, v)))
+
+/-- The last element: which of several assignments is in force. -/
+def lastWins {α : Type} (l : List α) : Option α := l.getLast?
 
 end Mcp.ReqPaths
